@@ -19,7 +19,8 @@ def opOf : Sexp → Option Op
 def cfgOf : Sexp → Option St
   | .list [.atom "cfg", .atom "unlimited"] => some mkUnlimited
   | .list [.atom "cfg", .atom "soft", h, s, bn, bd] => do
-    pure (mkSoft (← h.nat?) (← s.nat?) (Float.ofNat (← bn.nat?) / Float.ofNat (← bd.nat?)))
+    -- QueueOptions.Validate: a soft quota ≤ 0 means "the hard limit"
+    pure (mkSoft (← h.nat?) ((← s.int?).toNat) (Float.ofNat (← bn.nat?) / Float.ofNat (← bd.nat?)))
   | _ => none
 
 def parse (args : List Sexp) : Option (St × List (List Op) × List Nat) := do
@@ -54,6 +55,7 @@ def qstress (args : List Sexp) : String :=
   | "drain" => s!"drain removed={n} falseempty=0 outoforder=0 lenbad=0 final=0"
   | "fill" => s!"fill failed=0 lenbad=0 final={n}"
   | "pc" => "pc missing=0 dup=0 invented=0 orderbad=0 final=0"
+  | "badd" => "badd failed=0 overlimit=0 missing=0 dup=0 orderbad=0 final=0"
   | _ => "bad-op"
 
 /-- sequential calls (harness `qpre`), the `…c` operations made with a context that is already
